@@ -274,4 +274,59 @@ pub fn replay_inject(cfg: &HistCfg, ops: &[Op], at: usize, class: usize, n: u64,
     else { inject_case::<TH>(cfg, &ops[..at], &ops[at], class, n, universe, base, &mut rng, &p, out, Some(&ops[at + 1..])); }
 }
 
+/// Panic injection at scale: a cache of `n` entries, a Hash panic at the first, last, power-of-two and random
+/// positions of a table rebuild (reserve, shrink_to_fit, growing insert) and of clone; structure and accounting afterwards.
+pub fn run_inject_big(seed: u64, n: usize, out: &mut RunOut) {
+    let base = base_entry_size();
+    let mut rng = Rng::new(seed);
+    ledger_reset(); ledger_strict(false);
+    crate::ops::set_current_hk(3);
+    let cfg = HistCfg { hk: 3, cap0: None, max: usize::MAX, universe: n as u32, events: 0, extreme: false };
+    let mut c: Cache<TH> = TH::make(usize::MAX, None, 3);
+    for id in 0..n as u32 { let _ = c.insert(TKey::new(id, 0), TVal::new(0)); }
+    let mut positions: Vec<u64> = vec![1, 2, n as u64 / 2, n as u64 - 1, n as u64];
+    let mut k = 10; while (1u64 << k) + 1 < n as u64 { positions.push((1 << k) + 1); positions.push(1 << k); k += 1; }
+    for _ in 0..12 { positions.push(1 + rng.below(n as u64)); }
+    positions.sort_unstable(); positions.dedup();
+    let opts = ObsOpts { universe: 0, owned_form: false, traversals: true, limit: n + 8 };
+    for (i, pos) in positions.iter().enumerate() {
+        let op_kind = i % 4;
+        let what = format!("{} with {} entries, Hash callback #{} panics", ["reserve", "shrink_to_fit", "clone", "try_reserve"][op_kind], c.len(), pos);
+        if p_markers() { println!("CASE inject-big {}", what); }
+        let len0 = c.len();
+        arm(C_HASH, *pos);
+        let r = std::panic::catch_unwind(std::panic::AssertUnwindSafe(|| match op_kind {
+            0 => { let add = c.capacity() - c.len() + 1 + len0 / 8; c.reserve(add); }
+            1 => c.shrink_to_fit(),
+            2 => { let d = c.clone(); drop(d); }
+            _ => { let add = c.capacity() - c.len() + 1; let _ = c.try_reserve(add); }
+        }));
+        let fired = !fuse_pending() && r.is_err();
+        disarm();
+        let ob = observe(&c, &opts);
+        out.stats.events += 1;
+        if fired { out.stats.eval("C16", mix(&[5000, op_kind as u64, (*pos as f64).log2() as u64, (n as f64).log2() as u64])); out.stats.count("c16_big_state_injections"); }
+        let mut viols = Vec::new();
+        for m in ob.g1.iter().chain(ob.g2.iter()) { viols.push(Viol { prop: "C16", sig: "structure".into(), msg: format!("{}: {}", what, m) }); }
+        if ob.g1.is_empty() {
+            if ob.len != len0 { viols.push(Viol { prop: "C16", sig: "structure".into(), msg: format!("{}: {} entries afterwards", what, ob.len) }); }
+            if ob.sum_rec() != ob.cur as u128 { viols.push(Viol { prop: "C16", sig: "recorded-sum".into(), msg: format!("{}: current_size() = {} but the recorded sizes sum to {}", what, ob.cur, ob.sum_rec()) }); }
+            if ob.cur as u128 != (len0 as u128) * base as u128 { viols.push(Viol { prop: "C16", sig: "recorded-sum".into(), msg: format!("{}: current_size() = {} for {} entries of size {}", what, ob.cur, len0, base) }); }
+        }
+        if !viols.is_empty() {
+            out.record(&viols, &cfg, &[], 0);
+            for f in out.failures.iter_mut() { f.rerun = true; }
+            std::mem::forget(c);
+            ledger_reset();
+            return;
+        }
+        // a successful shrink/reserve between injections keeps the table changing
+        if op_kind == 1 { c.reserve(len0 / 4); }
+    }
+    drop(c);
+    ledger_reset();
+}
+
+fn p_markers() -> bool { std::env::var("LRUVERIF_MARKERS").is_ok() }
+
 pub fn _unused(_: &Stats) {}
